@@ -24,7 +24,7 @@ RULE += ('; also: list outputs mutated after acceptance, namespace validators ob
 ASSUMPTIONS = ['a fresh Process class per case (emitting into a dynamic namespace adds namespaces to the class spec)',
                'reference model written from the statement; namespace creation by earlier emissions is tracked by the model']
 REQUIRED = ['emissions', 'accepted', 'rejected', 'rejected_valueerror', 'dynamic_accepted', 'nested_paths', 'unchanged_checks', 'listener_checks',
-            'success/true', 'success/false_by_outputs', 'dict_values', 'identity_checks']
+            'success/true', 'success/false_by_outputs', 'dict_values', 'identity_checks', 'late_emissions']
 BOUNDS = {'quick': '300 specs x 12 emission sequences', 'thorough': '3000 specs x 25 sequences'}
 NAMES = ['a', 'ab', 'n', 'x']
 UN = c11.UN
@@ -171,6 +171,13 @@ class Emitter(plumpy.Process):
         return ret
 
 
+    def on_finished(self):
+        if getattr(self, 'late', None):
+            # a subclass that emits one more (acceptable) output when it is told that it has finished, before the listeners are
+            self.out(*self.late)
+        super().on_finished()
+
+
 class OutListener(plumpy.ProcessListener):
     def __init__(self):
         super().__init__()
@@ -295,6 +302,10 @@ def run_case(case):
             return {'viol': [], 'obs': obs, 'inconclusive': 'spec-error:%s' % type(exc).__name__, 'key': case, 'nontrivial': False}
         proc.emissions = copy.deepcopy(emissions)
         proc.ret = case['ret']
+        late = None
+        if spec[1].get('dynamic') and not spec[1].get('valid_type') and not spec[1].get('validator') and 'zz_late' not in spec[2]:
+            late = proc.late = ('zz_late', 1)
+            obs['late_emissions'] = 1
         lst = OutListener()
         proc.add_process_listener(lst)
         task = drv.loop.create_task(proc.step_until_terminated())
@@ -362,6 +373,10 @@ def run_case(case):
                     obs['rejected_valueerror'] += 1
                 else:
                     viol.append(V('rejection-not-valueerror', 'rejection-not-valueerror:%s' % got[2], 'rejected value raised %s instead of ValueError: %s' % (got[2], ctx)))
+    valid_at_finish = model.outputs_valid(exp_outputs)  # (what on_finish judged: the outputs collected when the last step returned)
+    if not viol and late and state == 'finished':
+        exp_outputs['zz_late'] = 1
+        exp_emitted.append(['zz_late', 1, True])
     if not viol:
         obs['listener_checks'] = len(exp_emitted)
         if [[p, c11.plain(v), d] for p, v, d in lst.emitted] != [[p, c11.plain(v), d] for p, v, d in exp_emitted]:
@@ -370,7 +385,7 @@ def run_case(case):
             viol.append(V('outputs-differ', 'outputs-differ', 'outputs %r, expected %r (spec %s, emissions %r)' % (outputs, exp_outputs, shape, case['emissions'])))
         ret = case['ret']
         returned_ok = not isinstance(ret, list)
-        valid = model.outputs_valid(exp_outputs)
+        valid = valid_at_finish
         exp_success = returned_ok and valid
         exp_result = ret[1] if isinstance(ret, list) else ret
         if state != 'finished':
